@@ -32,9 +32,17 @@ RULE = (
     "(workload, angle class, input kind, chain length or key spelling, query kind)"
 )
 ASSUMPTIONS = ["rotations are unit quaternions / proper rotation matrices", "orientation equality is up to quaternion sign"]
-DECIDING = ["HomogeneousMatrix.invariant_checked", "HomogeneousMatrix.transform.checked", "HomogeneousMatrix.dot.checked", "HomogeneousMatrix.inv.checked", "TransformDict.transform.checked", "C18.mismatch_rejected", "C18.unregistered_rejected", "C18.roundtrips", "C18.chains", "C18.history_queries"]
+DECIDING = ["HomogeneousMatrix.invariant_checked", "HomogeneousMatrix.transform.checked", "HomogeneousMatrix.dot.checked", "HomogeneousMatrix.inv.checked", "TransformDict.transform.checked", "C18.mismatch_rejected", "C18.unregistered_rejected", "C18.roundtrips", "C18.chains", "C18.history_queries", "C18.call_forms_checked"]
 JOBS = {"quick": 2, "thorough": 14}
 FRAMES = list(FrameID)
+
+
+class Raised:
+    def __init__(self, name: str):
+        self.name = name
+
+    def __repr__(self) -> str:
+        return f"raised {self.name}"
 
 
 def ptol(*vals: Any) -> float:
@@ -349,6 +357,61 @@ def run(ctx: Ctx) -> None:
                     e = (exp @ np.append(p, 1.0))[:3]
                     ctx.check(np.abs(np.asarray(out, dtype=float) - e).max() <= ptol(e, p) * 10, "C18/registry_answer_not_direct_or_inverse_entry", dict(info, out=np.asarray(out).tolist(), exp=e.tolist()), "TransformDict.transform")
                     ctx.case(("registry", kind, hows[0], hows[1], key_kind), nontrivial=True)
+        # ---- call forms: keyword and positional spellings of one query answer alike (direct, inverse and X->X)
+        for idx in ctx.indices("call_forms", 300 if ctx.quick else 60000):
+            with ctx.case_guard("call_forms"):
+                r = ctx.rng("call_forms", idx)
+                a, b, c = r.sample(FRAMES, 3)
+                q1, _ = rand_rotation(r)
+                q2, _ = rand_rotation(r)
+                m1, _ = make_matrix(r, q1, rand_translation(r), a, b)
+                m2, _ = make_matrix(r, q2, rand_translation(r), c, a)
+                td = TransformDict([m1])
+                p = np.array(rand_translation(r))
+                qq, _ = rand_rotation(r)
+                rot = Quaternion(*qq)
+                ctx.begin_case("call_forms", idx, src=a.value, dst=b.value)
+
+                def same_pose(x, y):
+                    if isinstance(x, HomogeneousMatrix) or isinstance(y, HomogeneousMatrix):
+                        return isinstance(x, HomogeneousMatrix) and isinstance(y, HomogeneousMatrix) and x.src is y.src and x.dst is y.dst and np.allclose(x.matrix, y.matrix, rtol=0, atol=1e-12)
+                    if isinstance(x, tuple) != isinstance(y, tuple):
+                        return False
+                    if isinstance(x, tuple):
+                        return np.allclose(np.asarray(x[0], dtype=float), np.asarray(y[0], dtype=float), rtol=0, atol=1e-12) and np.allclose(Quaternion(x[1]).elements, Quaternion(y[1]).elements, rtol=0, atol=1e-12)
+                    return np.allclose(np.asarray(x, dtype=float), np.asarray(y, dtype=float), rtol=0, atol=1e-12)
+
+                for target, who in ((m1, "HomogeneousMatrix"), (td, "direct"), (td, "inverse"), (td, "same")):
+                    key = {"direct": (a, b), "inverse": (b, a), "same": (a, a)}.get(who)
+                    call = (lambda *x, **k: target.transform(*x, **k)) if key is None else (lambda *x, **k: target.transform(key, *x, **k))  # noqa: E731
+                    # a matrix argument continues the chain: its source is the destination of the queried transform
+                    other = make_matrix(r, q2, rand_translation(r), {"inverse": a, "same": a}.get(who, b), c)[0] if r.random() < 0.8 else m2
+                    forms = [
+                        ("position", lambda: call(p), lambda: call(position=p)),
+                        ("position+rotation", lambda: call(p, rot), lambda: call(position=p, rotation=rot)),
+                        ("matrix", lambda: call(other), lambda: call(matrix=other)),
+                    ]
+                    for fname, pos_form, kw_form in forms:
+                        ctx.count("C18.call_forms_checked")
+                        try:
+                            x = pos_form()
+                        except Exception as e:  # noqa: BLE001
+                            x = Raised(type(e).__name__)
+                        try:
+                            y = kw_form()
+                        except Exception as e:  # noqa: BLE001
+                            y = Raised(type(e).__name__)
+                        ctx.count(f"C18.call_forms.{who}.{fname}.{'raised' if isinstance(x, Raised) else 'answered'}")
+                        if isinstance(x, Raised) or isinstance(y, Raised):
+                            ok = isinstance(x, Raised) and isinstance(y, Raised) and x.name == y.name
+                        else:
+                            ok = same_pose(x, y)
+                        ctx.check(ok, "C18/keyword_and_positional_call_forms_differ", dict(target=who, form=fname, positional=str(x)[:120], keyword=str(y)[:120]), "TransformDict.transform")
+                        if who == "same" and not isinstance(x, Raised) and not isinstance(y, Raised):
+                            # X->X returns its input unchanged, whichever form was used
+                            given = {"position": p, "position+rotation": (p, rot), "matrix": other}[fname]
+                            ctx.check(same_pose(x, given) and same_pose(y, given), "C18/same_frame_query_changes_input", dict(form=fname), "TransformDict.transform")
+                ctx.case(("call_forms",), nontrivial=True)
         # ---- registry histories: queries interleaved with re-registration, deletion and copies
         import copy as _copy
 
